@@ -37,9 +37,11 @@ RULE = ("random workflows (1-5 stages, every join type, scripted task outcomes i
         "PLUS signals for synthetic CHILD stages (harness/synth_suites.py, IMPLEMENTATION-ONLY, no model line): 1-2 top-level stages, one parent with a before- or after-stage whose task "
         "suspends k in {1,2} times (script U^k S), optionally a sibling child and a child of the other kind; 0-3 persistent / transient signals for that child sent before its parent started, "
         "before the child started, while it runs, after it suspended, or only once nothing else is deliverable; fifo | random | redelivery | kill of the signal or of the suspending RunTask "
-        "followed by restart + sweep + late redelivery; judged by mon_c18 (unchanged) and the transition-table monitor")
+        "followed by restart + sweep + late redelivery; judged by mon_c18 (unchanged) and the transition-table monitor. "
+        "PLUS the pause / resume dimension (harness/synth_suites.py, family 'pause', IMPLEMENTATION-ONLY: monitors on real-engine traces, no model line; signatures prefixed pause:): plain workflows (engine_suites.gen_spec w0, sometimes one suspending task) AND synthetic-stage ones; operator ops p = store.pause (only while the workflow is RUNNING), u = Orchestrator.unpause, r = store.resume injected at random steps into fifo | random | redelivery | starve schedules, combined with a cancel (often issued together with the un-pause, or while paused), signals and a second pause; every third unit is the directed 'parked' member (2-3 parallel stages all parked PAUSED, then un-pause or cancel + un-pause, random order); in 20 % of the runs nobody un-pauses, otherwise the operator keeps at it until nothing is paused (settle_pause: unpause, drain, store.resume if the row is still PAUSED with nothing parked); the signal workloads (one suspending target: top-level stage or synthetic child; 1-3 persistent / transient signals before, WHILE and after the pause, preferably pausing once the target is suspended); judged by pmon_c18 = mon_c18, except that a target parked PAUSED in a run nobody un-paused is only judged on 'left SUSPENDED by something else'")
 ASSUMPTIONS = ["delays are abstracted: budget-respecting schedules deliver a delayed message only when no immediate one is pending",
                "per-workflow circuit breaker disabled in the harness (volatile state outside the model)",
+               "pause / resume dimension: 'un-paused' means the operator idiom of the repo's tests and demos (Orchestrator.unpause, then store.resume when the row is still PAUSED with nothing parked), repeated up to three times at quiescence; store.pause is only issued while the workflow row is RUNNING (store.pause() itself writes PAUSED over any status, also a final one: operator misuse, not generated); a message that raises on every delivery is dead-lettered after max_attempts deliveries (real check_and_move_expired) and the first such loss names the cause of what follows (`…@<msg>-dead-lettered:<exception>-while-workflow-<status>`)",
                "child-stage signals: 'explicitly waiting' is the child's own SUSPENDED status (its parent stays RUNNING); a workflow that reaches a final status while the signalled child is SUSPENDED "
                "and no cancel was accepted is mon_c18's suspended-stage-abandoned (the F46 / F47 regression net)",
                "race suite: Mode B explores the interleavings SQLite's single-writer locking permits at transaction granularity plus all read / CAS windows "
@@ -50,6 +52,7 @@ ASSUMPTIONS = ["delays are abstracted: budget-respecting schedules deliver a del
                "claim rows are C04 / C11)"]
 TRUSTED_BASE = ["Engine model (lean/Stab/Model/Engine.lean) is hand-written; tied to handlers/* by the trace differential on generated schedules only",
                 "signals for synthetic child stages: IMPLEMENTATION-ONLY (harness/synth_suites.py), neither Stab.Engine nor Stab.SignalRace has child stages; Mode B races are not run on children",
+                "pause / resume (store.pause, PauseTask, Orchestrator.unpause / ResumeStage, store.resume): IMPLEMENTATION-ONLY family (synth_suites family 'pause'), no theorem, no model line",
                 "not modelled: synthetic stages, mutex/deferred choice, OR-split conditions, pause/resume, timeouts, PostgreSQL backend",
                 "SignalRace model (lean/Stab/Model/SignalRace.lean) is hand-written from handlers/signal_stage.py, handlers/run_task/handler.py (_process_result_safely), "
                 "handlers/run_task/result.py (_handle_suspended, _handle_success_like), persistence/sqlite/transaction.py (store_stage CAS), handlers/base.py "
@@ -577,6 +580,8 @@ def run(ctx) -> None:
     engine_suites.run_for(ctx, "C18")
     # signals for synthetic CHILD stages: implementation-only family (monitors on real-engine traces, no model line)
     synth_suites.run_for(ctx, "C18")
+    # pause / resume dimension: signals handled while the workflow is PAUSED (implementation-only)
+    synth_suites.run_for(ctx, "C18", family="pause")
     run_race(ctx)
 
 
